@@ -54,7 +54,8 @@ def curated():
 
 def random_cfg(rng, max_rules=3):
     pool = list("abcdef")
-    ids = iter("ABCDEFGHKLMN")
+    import itertools
+    ids = itertools.chain("ABCDEFGHKLMN", ("R%d" % i for i in itertools.count()))     # never runs out (nested implications draw several ids)
     rules = []
 
     def leaves(k):
